@@ -181,7 +181,7 @@ theorem moveaxis_eq_transpose (a : Arr α) (zero : α) (src dst : List Int)
 
 /-- **the order built by `moveaxis` is a permutation of the axes** — for distinct in-range sources and *any*
 destination list of the same length (destinations are only positions; the code clamps them, see
-`moveaxisOrder_single`) -/
+`moveaxisOrder_one`) -/
 theorem moveaxisOrder_perm (nd : Nat) (s d : List Nat) (hs : s.Nodup) (hl : s.length = d.length)
     (hb : ∀ x ∈ s, x < nd) : (moveaxisOrder nd s d).Perm (List.range nd) := by
   rw [moveaxisOrder_eq]
@@ -357,7 +357,7 @@ theorem moveaxis_single (a : Arr α) (zero : α) (i j : Int) (hwf : a.WF) (i' p 
   subst hi' hp
   obtain ⟨r, g1, g2, g3, g4⟩ := moveaxis_spec a zero [i] [j] hwf (by simp) rfl (by simp) (by simp)
     (by simpa using hi) _ rfl
-  simp only [List.map_cons, List.map_nil, moveaxisOrder_single _ _ _ hi] at g2 g4
+  simp only [List.map_cons, List.map_nil, moveaxisOrder_one _ _ _ hi] at g2 g4
   refine ⟨r, g1, ?_, g3, ?_⟩
   · rw [g2]; exact permute_rollaxisOrder a.ndim _ _ a.shape rfl
   · intro c hc
